@@ -144,7 +144,7 @@ fn oracle(case: &Value, out: &Out) -> Option<Violation> {
 impl Check for C19 {
     fn id(&self) -> &'static str { "C19" }
     fn rule(&self) -> String {
-        "one run = one of the 23 built-in strongly invertible diagrams (3..9 crossings) or its mirror, crossing list randomly reordered, ring F2 with (h,t) in {(0,0),(1,0),(0,1),(1,1)} or F2[H] with h=H, reduced/unreduced, under a drawn substrate configuration (workers, pick-up, strategy, schedule seed, hash seeds). Per execution: own d∘d=0 on KhIComplex; its homology (at H=0,1 for F2[H]) equals that of the reference Cone(1+tau: C -> C) on the cube-of-resolutions complex with tau induced by e -> (n+1-e) mod n + 1; SymTngBuilder::build_kh_complex has the homology of the cube complex; ssi: s0<=s1, s0=s1 mod 2. Cross-run: ssi constant per (knot, reduced), mirror gives (-s1,-s0). distinct = distinct event-log digests; non-trivial = every run (all exercise the hash-ordered symmetric builder)".into()
+        "one run = one of the 23 built-in strongly invertible diagrams (3..9 crossings) or 9_46 with its standard inversion (the one with s0 != s1) or its mirror, crossing list randomly reordered, ring F2 with (h,t) in {(0,0),(1,0),(0,1),(1,1)} or F2[H] with h=H, reduced/unreduced, under a drawn substrate configuration (workers, pick-up, strategy, schedule seed, hash seeds). Per execution: own d∘d=0 on KhIComplex; its homology (at H=0,1 for F2[H]) equals that of the reference Cone(1+tau: C -> C) on the cube-of-resolutions complex with tau induced by e -> (n+1-e) mod n + 1; SymTngBuilder::build_kh_complex has the homology of the cube complex; ssi: s0<=s1, s0=s1 mod 2. Cross-run: ssi constant per (knot, reduced), mirror gives (-s1,-s0). distinct = distinct event-log digests; non-trivial = every run (all exercise the hash-ordered symmetric builder)".into()
     }
     fn assumptions(&self) -> Vec<String> {
         vec![
@@ -161,6 +161,8 @@ impl Check for C19 {
         let max_x = if tier == "quick" { 8 } else { 9 };
         let cands: Vec<&(&str, &[[u32; 4]])> = SINV_TABLE.iter().filter(|(_, pd)| pd.len() <= max_x).collect();
         let (name, pd) = **rng.pick(&cands);
+        // one run in 16 takes 9_46 whatever the size bound: the other diagrams have s0 = s1
+        let (name, pd) = if rng.chance(1, 16) { SINV_TABLE[0] } else { (name, pd) };
         let mut pd = pd.to_vec();
         let mirror = rng.chance(1, 2);
         // half of the mirrored runs go through `InvLink::mirror()`, half through an own mirrored code
